@@ -268,14 +268,28 @@ func (c *Ctx) sel(arr, idx string) string {
 					a = args[0]
 					continue
 				}
+				// undecided: case split, so that pointwise definitions below the store stay reachable
+				if c.selDepth < 3 && c.hasLazyBelow(args[0], 0) {
+					c.selDepth++
+					r := ite(eq(args[1], idx), args[2], c.sel(args[0], idx))
+					c.selDepth--
+					return r
+				}
 			}
 		} else if strings.HasPrefix(d, "((as const ") {
 			args := sexprArgs(d)
 			if len(args) == 1 {
 				return args[0]
 			}
-		} else if strings.HasPrefix(d, "(ite ") {
-			// do not expand
+		} else if strings.HasPrefix(d, "(ite ") && c.selDepth < 3 {
+			// select distributes over ite (keeps the pointwise definitions of copied arrays reachable)
+			args := sexprArgs(d)
+			if len(args) == 3 {
+				c.selDepth++
+				r := ite(args[0], c.sel(args[1], idx), c.sel(args[2], idx))
+				c.selDepth--
+				return r
+			}
 		} else if d != a && len(d) > 0 && d[0] != '(' {
 			// a bound alias of another array constant
 			a = d
@@ -292,6 +306,35 @@ func (c *Ctx) sel(arr, idx string) string {
 		}
 	}
 	return app("select", a, idx)
+}
+
+// hasLazyBelow: does the array term (through bound names, stores and ites) rest on an array with a
+// lazily instantiated pointwise definition?
+func (c *Ctx) hasLazyBelow(a string, depth int) bool {
+	if depth > 8 {
+		return false
+	}
+	if _, ok := c.lazyArr[a]; ok {
+		return true
+	}
+	d := a
+	if def, ok := c.defs[a]; ok {
+		d = def
+	}
+	if d != a && len(d) > 0 && d[0] != '(' {
+		return c.hasLazyBelow(d, depth+1)
+	}
+	if strings.HasPrefix(d, "(store ") {
+		if args := sexprArgs(d); len(args) == 3 {
+			return c.hasLazyBelow(args[0], depth+1)
+		}
+	}
+	if strings.HasPrefix(d, "(ite ") {
+		if args := sexprArgs(d); len(args) == 3 {
+			return c.hasLazyBelow(args[1], depth+1) || c.hasLazyBelow(args[2], depth+1)
+		}
+	}
+	return false
 }
 
 // sexprArgs splits "(f a b c)" into [a b c].
